@@ -87,6 +87,10 @@ LEMMA StepInd == IndInv /\ [Next]_vars => IndInv'
   <2>2 CASE ~up
     BY <1>7, <2>2 DEF PrivateFetch, EntryExact, Pending, Fresh
   <2> QED BY <2>1, <2>2
+<1>7a ASSUME NEW g \in Gs, Abandon(g) PROVE IndInv'
+  BY <1>7a DEF Abandon, EntryExact, Pending, Fresh
+<1>7b ASSUME NEW g \in Gs, AbandonPrivate(g) PROVE IndInv'
+  BY <1>7b DEF AbandonPrivate, EntryExact, Pending, Fresh
 <1>8 ASSUME NEW g \in Gs, Return(g) PROVE IndInv'
   BY <1>8 DEF Return, EntryExact, Pending, Fresh
 <1>9 CASE Advance
@@ -97,7 +101,7 @@ LEMMA StepInd == IndInv /\ [Next]_vars => IndInv'
   BY <1>11 DEF Toggle, EntryExact, Pending, Fresh
 <1>12 CASE UNCHANGED vars
   BY <1>12 DEF vars, EntryExact, Pending, Fresh
-<1> QED BY <1>1, <1>2, <1>3, <1>4, <1>5, <1>6, <1>7, <1>8, <1>9, <1>10, <1>11, <1>12 DEF Next, GoStep
+<1> QED BY <1>1, <1>2, <1>3, <1>4, <1>5, <1>6, <1>7, <1>7a, <1>7b, <1>8, <1>9, <1>10, <1>11, <1>12 DEF Next, GoStep
 
 THEOREM FreshAlways == Spec => [](Fresh /\ EntryExact)
 <1>1 IndInv => Fresh /\ EntryExact
